@@ -329,6 +329,9 @@ func (m *Monitors) stepInvariants(n *Node, pre Pre) {
 			if !e.Stored || e.Sender == string(n.ID) {
 				continue
 			}
+			if !termHeights[uint64(e.H)] {
+				m.fail("C08", "stored-unauthorised-message:"+e.Kind+":height", "node %d (height %d at the start of this step, %d at its end) stored a %s(h=%d,v=%d) claimed from %q: not a message for a height the node was working on", n.Idx, pre.H, h, e.Kind, e.H, e.V, e.Sender)
+			}
 			if why := m.storedMessageOK(e); why != "" {
 				m.fail("C08", "stored-unauthorised-message:"+e.Kind+":"+why, "node %d stored a %s(h=%d,v=%d) claimed from %q that must not influence it: %s", n.Idx, e.Kind, e.H, e.V, e.Sender, why)
 			}
